@@ -22,7 +22,7 @@ var alignedGaps = []uint64{100, 125, 200, 250, 500, 1000, 1250, 2000, 2500, 4000
 func TestPropAlignedTrain(t *testing.T) {
 	c := startRunner(t)
 	p := newPlane(t, c)
-	vstat.Checks(80, 600)
+	vstat.Checks(80, 1200)
 	budget := uint64(vstat.Scale(120_000, 400_000))
 	rapid.Check(t, func(rt *rapid.T) {
 		G := pick(rt, "G", alignedGaps...)
